@@ -40,6 +40,10 @@ CHECKS = {
    text="TLC model-checks spec/Heap.tla: on the reference layer (names bound to cells, value routes copy, sharing routes alias) NoLeak and the frame rule hold; on the mechanism layer of the pinned code (copies share slots and nested arrays: named deviation cells-shared-on-copy) NoLeak is refuted. Every path of the graph — 4 shapes x 12 routes (assign, by-value parameter, return, getter, property store/load, element store/load, clone; &, by-ref parameter, object handle as sharing controls) x 1..2 of 13 mutations on either side — is rendered as a script that snapshots both names before and after every mutation and run in subprocess workers.",
    note="Trusted: json_encode snapshots; a scenario whose mutation does not change the written name is counted as ineffective, not as a pass; closure capture excluded as in the property.",
    tech="TLA+ spec (Heap.tla: reference + mechanism layer) checked by TLC; every scenario path replayed as a snapshotting script"),
+ "C02": dict(cat="model_checking", ref="§5 C02",
+   text="spec/Lang.tla is a small-step abstract machine (CEK style: control, environment, continuation stack with seq/loop/switch/try/catch/finally/call frames, pending break/continue/return/throw, static storage) over JSON ASTs; TLC runs every generated program as one behaviour, checks the machine's own properties on every state (TargetExists, FrameIsolation, FinallyOnce, AllTriesLeft) and prints the echoed tokens; the same AST is unparsed to source and run on the real interpreter in subprocess workers; tokens and final status must agree. Programs: every nest of 2 (thorough 3) loops x {break n, continue n, return} x {if, switch case, try/finally}, switch fall-through / match, integer fast-path shapes, and 400 (thorough 5000) seeded typed programs with functions, defaults, recursion, statics and shadowing locals. Disagreements are re-run on the machine with the named deviations (break-level-ignored, switch-no-fallthrough, continue-in-switch-swallowed): predicted exactly => known finding, else VIOLATION.",
+   note="Trusted: the Go unparser (fully parenthesised, one statement per line); values stay within +-10^6 (TLC integers are 32 bit); programs over the step budget are discarded and counted.",
+   tech="TLA+ abstract machine (Lang.tla) executed by TLC as reference interpreter with invariants; generated programs replayed on the real interpreter"),
 }
 NOT_YET = "check not built yet in this round (planned: TLA+ spec + conformance binding, see DESIGN.md §5)"
 def main():
